@@ -5,6 +5,7 @@
 //   e2e <run> <namehex>:<datahex>*          observation: outcome, every occupied slot, timestamp (as evt10)
 //   calw <run>                               observation: the 256 wire calibration triples of the run (count, hash)
 //   calp <run> <column>                      observation: the 576 pad calibration triples of the column
+//   calib-scan <upto>                        (generator and translator) the runs in 1..=upto where the calibration changes
 //   calib-dump <run>                         (translator only, tools/genx_calib.py) every triple of the run in full
 // The calibration lines compare every entry of coq/Gen/Calib.v with alpha_g_physics::verif::{wire,pad}_calibration.
 use crate::c10::{self, Bank};
@@ -42,6 +43,42 @@ fn summarise(toks: &[String]) -> String {
     }
     format!("{} {:016x} {} {}", ok, h, toks.first().map(|s| &s[..]).unwrap_or("-"), toks.last().map(|s| &s[..]).unwrap_or("-"))
 }
+/// cheap fingerprint of the complete calibration of a run: every wire and every 13th pad (baseline, gain bits, delay /
+/// "no entry"); two runs with different fingerprints are dispatched differently
+pub fn calib_fingerprint(run: u32) -> u64 {
+    let mut h: u64 = 0xcbf29ce484222325;
+    let mut mix = |r: Result<(i16, f64, usize), String>| {
+        let (a, b, c) = match r {
+            Ok((bl, g, dl)) => (bl as u16 as u64 | 0x10000, g.to_bits(), dl as u64),
+            Err(_) => (0, 0, u64::MAX),
+        };
+        for x in [a, b, c] {
+            h = (h ^ x).wrapping_mul(0x100000001b3);
+        }
+    };
+    for w in 0..N_WIRES {
+        mix(alpha_g_physics::verif::wire_calibration(run, w));
+    }
+    let mut k = 0;
+    while k < N_COLS * N_ROWS {
+        mix(alpha_g_physics::verif::pad_calibration(run, k / N_ROWS, k % N_ROWS));
+        k += 13;
+    }
+    h
+}
+/// the run numbers in 1..=upto at which the calibration fingerprint differs from the previous run's
+pub fn calib_boundaries(upto: u32) -> Vec<u32> {
+    let mut out = Vec::new();
+    let mut last = calib_fingerprint(0);
+    for run in 1..=upto {
+        let f = calib_fingerprint(run);
+        if f != last {
+            out.push(run);
+            last = f;
+        }
+    }
+    out
+}
 fn wire_toks(run: u32) -> Vec<String> {
     (0..N_WIRES).map(|w| cal_tok(alpha_g_physics::verif::wire_calibration(run, w))).collect()
 }
@@ -64,6 +101,11 @@ pub fn observe_line(line: &str) -> Option<String> {
             let run = toks.get(1)?.parse::<u32>().ok()?;
             let col = toks.get(2)?.parse::<usize>().ok()?;
             Some(summarise(&pad_toks(run, col)))
+        }
+        Some(&"calib-scan") => {
+            let upto = toks.get(1)?.parse::<u32>().ok()?;
+            let b: Vec<String> = calib_boundaries(upto).iter().map(|r| r.to_string()).collect();
+            Some(format!("boundaries {}", b.join(" ")))
         }
         Some(&"calib-dump") => {
             let run = toks.get(1)?.parse::<u32>().ok()?;
@@ -150,6 +192,13 @@ pub fn run(tier: &str, seed: u64, s: &mut Sink) {
     // 1. every entry of the calibration tables, on every run class and arm boundary
     let mut runs: Vec<u32> = c10::RUNS_MAIN.iter().chain(c10::RUNS_EDGE.iter()).copied().collect();
     runs.extend_from_slice(&[11184, 11188, 11190, 11194, 9275, 9279, 7024, 7028, 6998, 7002, 3_000_000_000]);
+    // every run in 1..=20000 at which the implementation's calibration changes (found by scanning the implementation,
+    // not read from the source), +-1; a stride of runs in between; a few beyond
+    for b in calib_boundaries(20000) {
+        runs.extend_from_slice(&[b - 1, b, b + 1]);
+    }
+    runs.extend((0..=20000u32).step_by(if thorough { 499 } else { 2503 }));
+    runs.extend_from_slice(&[20001, 50000, 65535, 65536, 1 << 31]);
     runs.sort();
     runs.dedup();
     for &run in &runs {
